@@ -39,6 +39,80 @@ def odd_keys(report):
     report.notes["odd_keys"] = "tables of three rows over key values with glue characters read under IsUnique(a, b)"
 
 
+def staged_cids(report):
+    """
+    A Cid put together in stages (rows with Cid.read, checks with add_check_row / add_check), with data validated in between:
+    a check that is part of the Cid when a data set is read decides over that data set as the property says -- IsUnique
+    rejects exactly the later duplicates, DistinctCount counts the rows that reached it. The oracle is the sentence itself
+    (recomputed here), over every table of three rows from a small pool, readers and writers.
+    """
+    import io
+    import itertools
+    core.import_repo()
+    import cutplace
+    from cutplace import checks, errors
+    pool = [("1", "a"), ("2", "b"), ("1", "c"), ("3", "a")]
+    tables = list(itertools.product(pool, repeat=3))
+    for how in ("row",):  # (Cid.add_check() cannot be called: its assertion misspells 'description' -- outside the listed properties)
+        for first in ((), (("1", "a"), ("2", "b")), (("1", "a"), ("1", "a"))):
+            cid = cutplace.Cid()
+            cid.read("staged", [["D", "Format", "delimited"], ["F", "id"], ["F", "branch"]])
+            if first:
+                try:
+                    cutplace.validate(cid, io.StringIO("".join(",".join(row) + "\r\n" for row in first), newline=""))
+                except errors.DataError:
+                    pass
+            if how == "row":
+                cid.add_check_row(["id is unique", "IsUnique", "id"])
+                cid.add_check_row(["few branches", "DistinctCount", "branch <= 2"])
+            else:
+                cid.add_check(checks.IsUniqueCheck("id is unique", "id", cid.field_names))
+                cid.add_check(checks.DistinctCountCheck("few branches", "branch <= 2", cid.field_names))
+            for table in tables:
+                report.replayed += 1
+                want, seen, branches = [], set(), set()
+                for row in table:
+                    if row[0] in seen:
+                        want.append("dup")
+                    else:
+                        want.append("ok")
+                        seen.add(row[0])
+                        branches.add(row[1])
+                want.append("end fails" if len(branches) > 2 else "end ok")
+                text = "".join(",".join(row) + "\r\n" for row in table)
+                got = []
+                try:
+                    for item in cutplace.rows(cid, io.StringIO(text, newline=""), on_error="yield"):
+                        got.append("dup" if isinstance(item, errors.CheckError) else ("ok" if not isinstance(item, Exception) else "other"))
+                    got.append("end ok")
+                except errors.CheckError:
+                    got.append("end fails")
+                except Exception as error:  # noqa
+                    got.append("%s: %s" % (type(error).__name__, error))
+                written = []
+                try:
+                    with cutplace.Writer(cid, io.StringIO()) as writer:
+                        for row in table:
+                            try:
+                                writer.write_row(list(row))
+                                written.append("ok")
+                            except errors.CheckError:
+                                written.append("dup")
+                    written.append("end ok")
+                except errors.CheckError:
+                    written.append("end fails")
+                except Exception as error:  # noqa
+                    written.append("%s: %s" % (type(error).__name__, error))
+                for who, verdicts in (("rows()", got), ("Writer", written)):
+                    if verdicts != want:
+                        report.violation("c05", {"staged": how, "first": [list(row) for row in first], "table": [list(row) for row in table]}, want, verdicts,
+                                         "Cid whose checks IsUnique(id) and DistinctCount(branch <= 2) were added with %s after %s: %s over the rows %r "
+                                         "gives %s but must give %s" % ("add_check_row" if how == "row" else "add_check", "data %r had been validated" % (list(first),) if first else
+                                                                        "its fields were read", who, list(table), verdicts, want))
+                        return
+    report.notes["staged_cids"] = "checks added to a Cid after its first use: tables of three rows read and written"
+
+
 def run(tier, report):
     # unbounded companion: the uniqueness bookkeeping as an inductive invariant (any number of rows and data sets)
     from harness import core
@@ -49,6 +123,7 @@ def run(tier, report):
     from harness import shared_cid
     shared_cid.run(report)
     odd_keys(report)
+    staged_cids(report)
     return session_props.run_plan("C05", tier, report)
 
 
